@@ -19,6 +19,7 @@ void c11_all2_resolve0(u8*, u8*); void c11_all2_resolve1(u8*, u8*); void c11_all
 void c11_all3_resolve0(u8*, u8*); void c11_all3_resolve1(u8*, u8*); void c11_all3_resolve2(u8*, u8*); void c11_all3_resolvevoid(u8*); void c11_all3_reject(u8*, u8*);
 void c11_any_resolve(u8*, u8*); void c11_any_resolvevoid(u8*); void c11_any_reject(u8*, u8*);
 void c11_war_ctor(u8*, u64, u8*, u8*); void c11_war_fulfil(u8*, u64, u8*);
+void c11_all2_init(u8*, u8*, u8*); void c11_all3_init(u8*, u8*, u8*); void c11_any_init(u8*, u64, u8*, u8*);
 /* ------------------------------------------------------------------ combined promise: recording stubs with the real contract */
 static int settled;            /* 0 pending, 1 fulfilled, 2 rejected */
 static int n_resolve, n_reject, n_throw; static u32 res_val[3]; static u8* rej_exc; static u8* res_any_core; static int step_of_settle, cur_step;
@@ -86,7 +87,7 @@ int main(void) {
   data_obj = data; u8* sp[2] = { data, 0 };
 #if defined(H_ALL)
   off_resolve = OFF_AllData_resolve; off_reject = OFF_AllData_reject; off_results = NIN == 2 ? OFF_AllData2_results : OFF_AllData3_results;
-  *(u64*)(data + OFF_AllData_total) = NIN; *(u64*)(data + OFF_AllData_resolved) = 0; data[OFF_AllData_rejected] = 0;
+  { static u8 r0[16], j0[16]; if (NIN == 2) c11_all2_init(data, r0, j0); else c11_all3_init(data, r0, j0); __CPROVER_assert(!vp_take_exception(), "constructing the policy data does not throw"); }
 #elif defined(H_RANGE)
   off_resolve = OFF_WarData_resolve; off_reject = OFF_WarData_reject; off_results = OFF_WarData_results;
   { static u8 r0[16], j0[16]; c11_war_ctor(data, NIN, r0, j0); __CPROVER_assert(!vp_take_exception(), "constructing the range data does not throw"); }
@@ -94,7 +95,8 @@ int main(void) {
   u8 pre_rejected; VP_SET(u8, pre_rejected, "pre_rejected"); __CPROVER_assume(pre_rejected <= 1); data[OFF_WarData_rejected] = pre_rejected;   /* an input rejected earlier (the rejection lambda has run) */
   if (pre_rejected) settled = 2;
 #else
-  off_resolve = OFF_AnyData_resolve; off_reject = OFF_AnyData_reject; off_results = 0; data[OFF_AnyData_done] = 0;
+  off_resolve = OFF_AnyData_resolve; off_reject = OFF_AnyData_reject; off_results = 0;
+  { static u8 r0[16], j0[16]; c11_any_init(data, NIN, r0, j0); __CPROVER_assert(!vp_take_exception(), "constructing the policy data does not throw"); }
 #endif
   /* each input settles once, in an order and with an outcome chosen by the solver */
   u32 val[3]; u8 rejects[3]; int used[3] = { 0, 0, 0 }; int order[3];
